@@ -65,6 +65,8 @@ def gen_case(rng, kind):
             "cx_filter": [float(v) for v in rng.uniform(0.2, 0.8, 2)] if rng.random() < 0.25 else None,
             # the same frame object was packed before with another curve order
             "np_ints": bool(rng.random() < 0.3),
+            # rows travel through pickle with the on-disk shuffle
+            "shuffle": [None, None, None, "tasks", "disk"][int(rng.integers(5))],
             "packed_before_p": int(rng.choice([1, 3, 9, 14])) if rng.random() < 0.2 else 0,
             "npartitions": int(rng.integers(1, 13)) if rng.random() < 0.4 else int(rng.integers(1, max(2, min(12, n // 3)) + 1)), "p": int(rng.choice([1, 2, 6, 10, 15, 20]))}
 
@@ -133,7 +135,8 @@ def check_case(ctx, case):
                                                          list(dask.compute(*pk.to_delayed())),
                                                          pk.divisions))
                                     (ddf.pack_partitions(npartitions=np.int64(k) if case.get("np_ints") else k,
-                                                         p=np.int32(p) if case.get("np_ints") else p)))
+                                                         p=np.int32(p) if case.get("np_ints") else p,
+                                                         **({"shuffle": case["shuffle"]} if case.get("shuffle") else {}))))
         if not ok:
             ctx.count("evaluations")
             # Dask cannot split a frame whose rows all share one Hilbert distance: nothing claimed
@@ -153,7 +156,7 @@ def check_case(ctx, case):
                  nontrivial=nd >= 2)
         ctx.sig(kind, f"in{min(npin, 3)}", "filter" if case["filter"] else "-",
                 "presort" if case["presort"] else "-", "repack" if case.get("repack") else "-", "cx" if case.get("cx_filter") else "-",
-                "again" if case.get("packed_before_p") else "-", f"out{min(k, 4)}", f"p{p}",
+                "again" if case.get("packed_before_p") else "-", str(case.get("shuffle") or "default"), f"out{min(k, 4)}", f"p{p}",
                 "missing" if any(v is None for v in vals) else "-")
         w = {"kind": kind, "n": len(src), "npartitions_in": npin, "npartitions": k, "p": p,
              "active": act}
